@@ -616,7 +616,7 @@ func (hs *handoffSet) add(hc *HandoffCase) { hs.cases = append(hs.cases, hc) }
 // abstract-map oracle on the observations.
 func (hs *handoffSet) execute(rep *common.Report, bin, outDir string) error {
 	sc := &StressCfg{Mode: "handoff", Cases: hs.cases}
-	res, err := runStress(bin, outDir, sc, 5*time.Minute)
+	res, err := runStress(bin, outDir, sc, 90*time.Second)
 	if err != nil {
 		return err
 	}
@@ -845,7 +845,7 @@ func replayWitness(cfg *common.Config, rep *common.Report, bin string, sk *Skele
 		return
 	}
 	sc := &StressCfg{Mode: "replay", Seed: cfg.Seed, Rounds: cfg.Pick(3000, 20000), Threads: threads, Clock: "mono"}
-	res, err := runStress(bin, cfg.OutDir, sc, 5*time.Minute)
+	res, err := runStress(bin, cfg.OutDir, sc, time.Duration(cfg.Pick(60, 300))*time.Second)
 	if err != nil {
 		rep.Notes = append(rep.Notes, "replay of the model's schedule failed to run: "+err.Error())
 		return
